@@ -658,3 +658,44 @@ V("C18-parse-context-shared", "C18", ["C18.R4"], [(FPARSER, "        context = L
 V("C18-spec-setattr", "C18", ["C18.R6"], [(SPEC, "        return replace(self, **kwargs)", "        for k, v in kwargs.items():\n            object.__setattr__(self, k, v)\n        return self")])
 V("C18-local-temp-equiv", "C18", [], [(POLY, "    out = numpy.empty((x.shape[0], degree))\n    out.fill(numpy.nan)", "    out = numpy.empty((x.shape[0], degree))\n    out[:] = numpy.nan")])
 V("C18-sorted-set-equiv", "C18", [], [(BASE, "        drop_rows: Sequence[int] = sorted(drop_rows)", "        drop_rows: Sequence[int] = sorted(set(drop_rows))")])
+
+# ----------------------------------------------------------------------------------------- C13
+TINIT = "formulaic/transforms/__init__.py"
+V("C13-revert-exp10", "C13", ["C13.R1"], [(TINIT, '"exp10": lambda x: numpy.power(10.0, x),', '"exp10": lambda x: numpy.power(x, 10),')], "origin: revert da70647 (exp10(x) = x**10)")
+V("C13-log2-misbound", "C13", ["C13.R1"], [(TINIT, '"log2": numpy.log2,', '"log2": numpy.log10,')])
+V("C13-exp10-pow-equiv", "C13", [], [(TINIT, '"exp10": lambda x: numpy.power(10.0, x),', '"exp10": lambda v: 10 ** v,')])
+V("C13-scale-uncentred-std", "C13", ["C13.R2"], [(SCALE, '    if _state["center"] is not None:\n        data = data - _state["center"]\n', '')],
+  "the scale would be estimated (and applied) without centring")
+V("C13-ddof-ignored", "C13", ["C13.R2"], [(SCALE, "numpy.sum(data**2, axis=0) / (data.shape[0] - ddof)", "numpy.sum(data**2, axis=0) / (data.shape[0] - 1)")])
+V("C13-center-scales", "C13", ["C13.R2"], [(SCALE, "    return scale(data, scale=False, _state=_state)", "    return scale(data, scale=True, _state=_state)")])
+V("C13-standardize-flags", "C13", ["C13.R2"], [("formulaic/transforms/patsy_compat.py", "return scale(x, center=center, scale=rescale, ddof=ddof, _state=_state)", "return scale(x, center=rescale, scale=center, ddof=ddof, _state=_state)")])
+V("C13-poly-null-rows", "C13", ["C13.R2"], [(POLY, "    out.fill(numpy.nan)", "    out.fill(0.0)")])
+
+# ----------------------------------------------------------------------------------------- C17
+V("C17-revert-required-variables", "C17", ["C17.R4"], [(FORMULA, "            for variable in factor_variables(factor)\n", "            for variable in get_expression_variables(factor.expr, {})\n")],
+  "origin: revert d1e8a62 (every factor parsed as Python)")
+V("C17-lookup-parsed", "C17", ["C17.R4"], [(FORMULA, "            if factor.eval_method is Factor.EvalMethod.LOOKUP:\n                return [Variable(factor.expr, roles=(\"value\",))]\n", "")])
+V("C17-layer-order", "C17", ["C17.R1"], [(BASE, '            LayeredMapping(self.data_context, name="data"),\n            LayeredMapping(self.context, name="context"),', '            LayeredMapping(self.context, name="context"),\n            LayeredMapping(self.data_context, name="data"),')])
+V("C17-layer-name", "C17", ["C17.R1"], [(BASE, 'LayeredMapping(TRANSFORMS, name="transforms"),', 'LayeredMapping(TRANSFORMS, name="context"),')])
+V("C17-wildcard-all-vars", "C17", ["C17.R5"], [(PARSER, "            unused_variables = available_variables - used_variables", "            unused_variables = available_variables")])
+V("C17-lhs-vars-whole-formula", "C17", ["C17.R5"], [(PARSER, "            for token in tokens[:rhs_index]\n            for variable in token.required_variables", "            for token in tokens\n            for variable in token.required_variables")])
+V("C17-lookup-source-none", "C17", ["C17.R6"], [(BASE, 'return values, {Variable(name, roles=("value",), source=layer)}', 'return values, {Variable(name, roles=("value",), source="data")}')])
+V("C17-context-key-conditional", "C17", ["C17.R3"], [(PARSER, """        context["__formulaic_variables_used_lhs__"] = [
+            variable
+            for token in tokens[:rhs_index]
+            for variable in token.required_variables
+        ]
+""", """        if rhs_index > 0:
+            context["__formulaic_variables_used_lhs__"] = [
+                variable
+                for token in tokens[:rhs_index]
+                for variable in token.required_variables
+            ]
+""")], "one-sided formula with `.` → KeyError")
+
+# ----------------------------------------------------------------------------------------- C20
+V("C20-resorted", "C20", ["C20.R1"], [(FORMULA, "            # Preserve term ordering even if differentiation modifies degrees/etc.\n            _ordering=OrderingMethod.NONE,", "            _ordering=self.ordering,")])
+V("C20-drops-zero-terms", "C20", ["C20.R1"], [(FORMULA, "                differentiate_term(term, wrt, use_sympy=use_sympy)\n                for term in self.__terms\n", "                differentiate_term(term, wrt, use_sympy=use_sympy)\n                for term in self.__terms\n                if term.degree > 0\n")])
+V("C20-zero-becomes-one", "C20", ["C20.R2"], [(CALC, '            return Term({Factor("0", eval_method="literal")})', '            return Term({Factor("1", eval_method="literal")})')])
+V("C20-empty-becomes-zero", "C20", ["C20.R2"], [(CALC, '    return Term(factors or {Factor("1", eval_method="literal")})', '    return Term(factors or {Factor("0", eval_method="literal")})')])
+V("C20-keeps-affected", "C20", ["C20.R2"], [(CALC, "            (factors - affected_factors)\n            | (_differentiate_factors", "            factors\n            | (_differentiate_factors")])
